@@ -532,6 +532,27 @@ func checkC07(c *Check) {
 			na++
 		}
 	}
+	// break directly in a switch that no loop encloses: whether the language accepts it is not asserted (Go does,
+	// this language need not), but the answer cannot depend on unrelated loops elsewhere in the program
+	{
+		sw := "n := 1\nswitch n {\ncase 1:\n\tprint(\"one\")\n\tbreak\ndefault:\n\tprint(\"other\")\n}\n"
+		swFn := "n := 1\nfunc pick() {\n\tswitch n {\n\tcase 1:\n\t\tif n == 1 {\n\t\t\tbreak\n\t\t}\n\t}\n}\npick()\n"
+		loopBefore := "for i := 0; i < 1; i++ {\n}\n"
+		loopFnBefore := "func lp() {\n\tfor {\n\t\tbreak\n\t}\n}\nlp()\n"
+		rangeBefore := "for i, ch := range \"ab\" {\n\tprint(i, ch)\n}\n"
+		stdBefore := "import \"strings\"\n\nprint(strings.Contains(\"ab\", \"a\"))\n"
+		for bi, base := range []string{sw, swFn} {
+			ra, rb, _ := transpileBoth(base, nil)
+			for vi, pre := range []string{loopBefore, loopFnBefore, rangeBefore, stdBefore, loopBefore + loopFnBefore} {
+				src := pre + base
+				va, vb, _ := transpileBoth(src, nil)
+				c.Eval("switch-break-consistency\x00"+src, true)
+				if verdictOf(va) != verdictOf(ra) || verdictOf(vb) != verdictOf(rb) {
+					c.Violation(fmt.Sprintf("switch-break-consistency/%d/%d", bi, vi), fmt.Sprintf("break in a switch outside any loop: %s/%s alone, %s/%s when an unrelated loop stands before it", verdictOf(ra), verdictOf(rb), verdictOf(va), verdictOf(vb)), map[string]string{"main.tsh": src, "alone.tsh": base})
+				}
+			}
+		}
+	}
 	c.Extra["observed_accepts"] = na
 	c.Extra["observed_rejects"] = len(cells) - na
 }
